@@ -672,8 +672,7 @@ def lazy_iteration(repo, col, R):
               f"iterates over {src_idx.short(80) if src_idx is not None else None}", node=fi.node)
 
 
-def _filter(repo, col):
-    R = "R-C11-filter"
+def _filter(repo, col, R="R-C11-filter"):
     for name, tbl, inview in (("_at_nodes", "nodes", None), ("_at_edges", "edges", None)):
         fi = repo.method("Module", name)
         ex = idx.expander(repo, fi)
